@@ -26,7 +26,7 @@ Definition wspec (w : world A) (k : key) (d : list A) : Prop :=
   exists P j idx src,
     In P (w_pipes w) /\ nth_error (p_nodes P) j = Some (fst k, SPersist) /\
     snd k = Z.of_nat idx /\ nth_error (p_parts P) idx = Some src /\
-    d = plain_rev (rev_prefix j (p_nodes P)) src.
+    d = plain_rev (Z.of_nat idx) (rev_prefix j (p_nodes P)) src.
 
 (* every entry of every manager holds the contents its key stands for *)
 Definition st_ok (w : world A) (st : state A) : Prop :=
